@@ -707,7 +707,9 @@ impl<Backing : AsRef<[u32]> + AsMut<[u32]>> DrawTarget<Backing> {
 
         if self.transform == Transform::identity() && integer_rect && self.clip_stack.is_empty() {
             let bounds = intrect(0, 0, self.width, self.height);
-            let mut irect = intrect(ix, iy, ix + iwidth, iy + iheight);
+            // a negative width or height describes the same rectangle as the path does
+            let (ix2, iy2) = (ix + iwidth, iy + iheight);
+            let mut irect = intrect(ix.min(ix2), iy.min(iy2), ix.max(ix2), iy.max(iy2));
             irect = match irect.intersection(&bounds) {
                 Some(irect) => irect,
                 _ => return,
